@@ -180,6 +180,7 @@ class RunInterp(JsonMixin, DatetimeMixin, Interp):
         self.repo = repo
         self.max_depth = 400
         self.max_while = 100000
+        self.concrete_asserts = True
         self.concrete_parse = True        # included scripts are parsed for real (parse_expression evaluated on the concrete text)
         self.logs = []
 
